@@ -615,6 +615,94 @@ func streamCancel(c *Ctx) {
 				}
 			}})
 		}
+		// K8: the deadline is installed by a client interceptor (a default-timeout interceptor), not
+		// by the caller: streaming calls must honour the context the interceptor chain hands down
+		for _, kind := range []string{"server", "bidi"} {
+			kind := kind
+			scs = append(scs, scenario{"cancel-interceptor-deadline", fmt.Sprintf("deadline installed by a client interceptor, %s %s h2=true", kind, proto), func() (string, bool) {
+				release := make(chan struct{})
+				h := connect.NewBidiStreamHandler("/s/m", func(ctx context.Context, s *connect.BidiStream[[]byte, []byte]) error {
+					_ = s.Send(&[]byte{1})
+					select {
+					case <-release:
+					case <-time.After(10 * time.Second):
+					}
+					return nil
+				}, connect.WithCodec(rawCodec{"raw"}))
+				var hh http.Handler = h
+				if kind == "server" {
+					hh = connect.NewServerStreamHandler("/s/m", func(ctx context.Context, r *connect.Request[[]byte], s *connect.ServerStream[[]byte]) error {
+						_ = s.Send(&[]byte{1})
+						select {
+						case <-release:
+						case <-time.After(10 * time.Second):
+						}
+						return nil
+					}, connect.WithCodec(rawCodec{"raw"}))
+				}
+				srv := startServer(hh, true)
+				defer srv.Close()
+				defer close(release)
+				cl := connect.NewClient[[]byte, []byte](srv.Client(), srv.URL+"/s/m", append(protoOpts(proto), connect.WithInterceptors(deadlineIcpt{200 * time.Millisecond}))...)
+				done := make(chan string, 1)
+				go func() {
+					if kind == "server" {
+						s, err := cl.CallServerStream(context.Background(), connect.NewRequest(&[]byte{}))
+						if err != nil {
+							done <- "call: " + codeName(err)
+							return
+						}
+						for s.Receive() {
+						}
+						e := codeName(s.Err())
+						_ = s.Close()
+						done <- e
+						return
+					}
+					s := cl.CallBidiStream(context.Background())
+					_ = s.Send(&[]byte{1})
+					_ = s.CloseRequest()
+					var err error
+					for err == nil {
+						_, err = s.Receive()
+					}
+					_ = s.CloseResponse()
+					done <- codeName(err)
+				}()
+				select {
+				case got := <-done:
+					return got, got == "deadline_exceeded"
+				case <-time.After(4 * time.Second):
+					return "the call is still running 4s after a 200ms deadline", false
+				}
+			}})
+		}
+		// K9: the deadline a peer sent passes while its request is still being uploaded: the unary
+		// handler must not run user code with a finished context and answer as if all were well
+		scs = append(scs, scenario{"cancel-deadline-during-upload", "deadline passes while the unary request body is still arriving, " + proto, func() (string, bool) {
+			runs := int32(0)
+			h := connect.NewUnaryHandler("/s/m", func(ctx context.Context, r *connect.Request[[]byte]) (*connect.Response[[]byte], error) {
+				atomic.AddInt32(&runs, 1)
+				return connect.NewResponse(&[]byte{1}), nil
+			}, connect.WithCodec(rawCodec{"raw"}))
+			body := []byte{5}
+			if proto != "connect" {
+				body = frame(0, []byte{5})
+			}
+			req := httptest.NewRequest(http.MethodPost, "/s/m", &slowReader{data: body, delay: 250 * time.Millisecond})
+			req.ProtoMajor, req.ProtoMinor, req.Proto = 2, 0, "HTTP/2.0"
+			req.Header.Set("Content-Type", ctFor(proto, "unary", "raw"))
+			if proto == "connect" {
+				req.Header.Set("Connect-Timeout-Ms", "40")
+			} else {
+				req.Header.Set("Grpc-Timeout", "40m")
+			}
+			rec := httptest.NewRecorder()
+			h.ServeHTTP(rec, req)
+			code, _ := responseErrorCode(proto, "unary", rec)
+			got := fmt.Sprintf("user code ran %d times, response code %d", atomic.LoadInt32(&runs), code)
+			return got, atomic.LoadInt32(&runs) == 0 && code == 4
+		}})
 		// K6: the context ends between the prefix write and the payload write of one Send
 		scs = append(scs, scenario{"cancel-mid-send", "context cancelled between the two writes of one Send, " + proto, func() (string, bool) {
 			return cancelMidSend(proto)
@@ -956,6 +1044,99 @@ func streamLife(c *Ctx) {
 				return got, ok
 			}})
 		}
+		// L3c: a call that fails on the client while its request side is open is aborted, not
+		// completed: the handler must not see a clean end of a request stream the client never closed
+		if proto != "grpc" { // gRPC: Receive itself blocks here (F12)
+			scs = append(scs, scenario{"life-abort-not-clean-end", "client call fails with the request side open; the handler's Receive must not report io.EOF, " + proto, func() (string, bool) {
+				ended := make(chan string, 1)
+				h := connect.NewBidiStreamHandler("/s/m", func(ctx context.Context, s *connect.BidiStream[[]byte, []byte]) error {
+					if _, err := s.Receive(); err != nil {
+						ended <- "first receive: " + err.Error()
+						return err
+					}
+					bad := bytes.Repeat([]byte{1}, 1000) // over the client's read limit
+					if err := s.Send(&bad); err != nil {
+						ended <- "send: " + err.Error()
+						return err
+					}
+					for {
+						if _, err := s.Receive(); err != nil {
+							if errors.Is(err, io.EOF) {
+								ended <- "clean end (io.EOF)"
+							} else {
+								ended <- "aborted: " + codeName(err)
+							}
+							return nil
+						}
+					}
+				}, connect.WithCodec(rawCodec{"raw"}))
+				srv := startServer(h, true)
+				defer srv.Close()
+				cl := connect.NewClient[[]byte, []byte](srv.Client(), srv.URL+"/s/m", append(protoOpts(proto), connect.WithReadMaxBytes(100))...)
+				s := cl.CallBidiStream(context.Background())
+				if err := s.Send(&[]byte{1}); err != nil {
+					return "send: " + err.Error(), false
+				}
+				_, rerr := s.Receive()
+				// the program gives up here: it closes the response side without ever closing the request side
+				_ = s.CloseResponse()
+				select {
+				case how := <-ended:
+					return fmt.Sprintf("client receive=%s; handler: %s", codeName(rerr), how), !strings.HasPrefix(how, "clean end")
+				case <-time.After(5 * time.Second):
+					_ = s.CloseRequest()
+					return "handler still waiting 5s after the client gave up", false
+				}
+			}})
+		}
+		// L3d: a request that cannot even be marshalled: the call returns (with an error), it does
+		// not wait for a response to a request that was never started
+		for _, kind := range []string{"unary", "client", "server"} {
+			kind := kind
+			scs = append(scs, scenario{"life-marshal-failure-returns", fmt.Sprintf("the request message cannot be marshalled, %s %s", kind, proto), func() (string, bool) {
+				h := connect.NewUnaryHandler("/s/m", func(ctx context.Context, r *connect.Request[[]byte]) (*connect.Response[[]byte], error) {
+					return connect.NewResponse(&[]byte{1}), nil
+				}, connect.WithCodec(rawCodec{"raw"}))
+				srv := startServer(h, true)
+				defer srv.Close()
+				opts := []connect.ClientOption{connect.WithCodec(brokenMarshalCodec{rawCodec{"raw"}})}
+				switch proto {
+				case "grpc":
+					opts = append(opts, connect.WithGRPC())
+				case "grpcweb":
+					opts = append(opts, connect.WithGRPCWeb())
+				}
+				cl := connect.NewClient[[]byte, []byte](srv.Client(), srv.URL+"/s/m", opts...)
+				done := make(chan error, 1)
+				go func() {
+					switch kind {
+					case "unary":
+						_, err := cl.CallUnary(context.Background(), connect.NewRequest(&[]byte{1}))
+						done <- err
+					case "server":
+						s, err := cl.CallServerStream(context.Background(), connect.NewRequest(&[]byte{1}))
+						if err == nil {
+							for s.Receive() {
+							}
+							err = s.Err()
+							_ = s.Close()
+						}
+						done <- err
+					default:
+						s := cl.CallClientStream(context.Background())
+						_ = s.Send(&[]byte{1})
+						_, err := s.CloseAndReceive()
+						done <- err
+					}
+				}()
+				select {
+				case err := <-done:
+					return codeName(err), err != nil
+				case <-time.After(4 * time.Second):
+					return "the call has not returned after 4s", false
+				}
+			}})
+		}
 		// L4: a complete call leaves no library goroutine behind and the handler saw end-of-request
 		for _, h2 := range []bool{true, false} {
 			h2 := h2
@@ -991,6 +1172,7 @@ func streamLife(c *Ctx) {
 		}
 	}
 	runScenarios(c, scs)
+	watcherLeakProbe(c)
 	// after everything: no goroutine of the library is left
 	deadline := time.Now().Add(3 * time.Second)
 	left := libraryGoroutines()
@@ -1103,4 +1285,87 @@ func rseqOp(c *Ctx, op string) {
 	}
 	c.Count("rseq:" + proto)
 	c.Emit(op, ans, true)
+}
+
+// brokenMarshalCodec cannot marshal anything (an application type the codec does not handle, a
+// string that is not UTF-8, ...).
+type brokenMarshalCodec struct{ rawCodec }
+
+func (brokenMarshalCodec) Marshal(any) ([]byte, error) {
+	return nil, errors.New("cannot marshal this message")
+}
+
+// watcherLeakProbe runs alone, after the concurrent scenarios: a call with a cancellable context
+// that is NOT cancelled when the call ends (a long-lived parent context) leaves nothing behind
+// once it was closed - also when closing the response side fails because the stream was reset.
+func watcherLeakProbe(c *Ctx) {
+	deadline := time.Now().Add(3 * time.Second)
+	for libraryGoroutines() > 0 && time.Now().Before(deadline) {
+		time.Sleep(50 * time.Millisecond)
+	}
+	if libraryGoroutines() > 0 {
+		return // something else is still running: the final check reports it
+	}
+	for _, proto := range []string{"connect", "grpcweb"} {
+		release := make(chan struct{})
+		h := connect.NewBidiStreamHandler("/s/m", func(ctx context.Context, s *connect.BidiStream[[]byte, []byte]) error {
+			if _, err := s.Receive(); err != nil {
+				return err
+			}
+			bad := bytes.Repeat([]byte{1}, 1000)
+			_ = s.Send(&bad)
+			select {
+			case <-release:
+			case <-ctx.Done():
+			}
+			return nil
+		}, connect.WithCodec(rawCodec{"raw"}))
+		srv := startServer(h, true)
+		cl := connect.NewClient[[]byte, []byte](srv.Client(), srv.URL+"/s/m", append(protoOpts(proto), connect.WithReadMaxBytes(100))...)
+		ctx, cancel := context.WithCancel(context.Background())
+		finished := watchdog(10*time.Second, func() {
+			s := cl.CallBidiStream(ctx)
+			_ = s.Send(&[]byte{1})
+			_, _ = s.Receive() // rejected: over the read limit; the call has failed
+			_ = s.CloseRequest()
+			_ = s.CloseResponse() // may fail: the stream was reset
+		})
+		close(release)
+		left := -1
+		if finished {
+			wait := time.Now().Add(2 * time.Second)
+			for left = libraryGoroutines(); left > 0 && time.Now().Before(wait); left = libraryGoroutines() {
+				time.Sleep(50 * time.Millisecond)
+			}
+		}
+		c.Count("life-watcher-probe")
+		desc := "bidi call with a cancellable, never cancelled context; Receive rejected a message; CloseRequest, CloseResponse; " + proto
+		if !finished {
+			c.Fail("life-watcher-leak-hang", desc, "watchdog expired", "the call did not finish")
+		} else if left > 0 {
+			c.Fail("life-goroutine-leak", desc, fmt.Sprintf("%d goroutines with connect-go frames remain while the context is still live", left), "a goroutine started by the library outlives the closed call")
+		}
+		cancel()
+		srv.Close()
+	}
+}
+
+// slowReader delivers its data after a delay (a slow upload), whatever the context says.
+type slowReader struct {
+	data  []byte
+	delay time.Duration
+	done  bool
+}
+
+func (r *slowReader) Read(p []byte) (int, error) {
+	if !r.done {
+		time.Sleep(r.delay)
+		r.done = true
+	}
+	if len(r.data) == 0 {
+		return 0, io.EOF
+	}
+	n := copy(p, r.data)
+	r.data = r.data[n:]
+	return n, nil
 }
